@@ -897,7 +897,45 @@ func (x *Exec) forStmt(st *State, fr *Frame, s *ast.ForStmt, k func(*State)) {
 		ord := x.loopOrd[s]
 		iterO := types.NewVar(s.Pos(), x.pkg.Types, fmt.Sprintf("iter#%d", ord), types.Typ[types.Int])
 		st.vars[iterO] = tInt(0)
-		hidden := func(s0 *State) map[string]Term { return map[string]Term{"iter": s0.vars[iterO]} }
+		// for i := 0; i < len(xs); i++ is the index form of `range xs`: an invariant written for
+		// the range form (idx, rest, range) reads idx = iter, range = xs, rest = drop(iter, xs)
+		var rangeOf *Term
+		if be, ok := s.Cond.(*ast.BinaryExpr); ok && be.Op == token.LSS && x.dry == 0 {
+			if ce, ok := ast.Unparen(be.Y).(*ast.CallExpr); ok && len(ce.Args) == 1 {
+				if id, ok := ast.Unparen(ce.Fun).(*ast.Ident); ok && id.Name == "len" {
+					if as, ok := s.Init.(*ast.AssignStmt); ok && len(as.Rhs) == 1 {
+						if bl, ok := as.Rhs[0].(*ast.BasicLit); ok && bl.Value == "0" {
+							if t := x.info.TypeOf(ce.Args[0]); t != nil {
+								if _, isSlice := types.Unalias(t).Underlying().(*types.Slice); isSlice && !x.hasEffect(ce.Args[0]) {
+									v := x.expr(st, fr, ce.Args[0])
+									if si := x.d.sorts[v.Sort]; si != nil && si.Kind == "list" {
+										rangeOf = &v
+										for _, ln := range []string{"drop_nth", "drop_len"} {
+											if !strings.Contains(","+x.opts["lemmas"]+",", ","+ln+",") {
+												if x.opts["lemmas"] == "" {
+													x.opts["lemmas"] = ln
+												} else {
+													x.opts["lemmas"] += "," + ln
+												}
+											}
+										}
+									}
+								}
+							}
+						}
+					}
+				}
+			}
+		}
+		hidden := func(s0 *State) map[string]Term {
+			m := map[string]Term{"iter": s0.vars[iterO]}
+			if rangeOf != nil {
+				m["idx"] = s0.vars[iterO]
+				m["range"] = *rangeOf
+				m["rest"] = tApp(rangeOf.Sort, "drop_"+rangeOf.Sort, s0.vars[iterO], *rangeOf)
+			}
+			return m
+		}
 		post := func(e *State, k2 func(*State)) {
 			e.vars[iterO] = tApp("Int", "+", e.vars[iterO], tInt(1))
 			if s.Post != nil {
